@@ -80,6 +80,32 @@ fn cmd_defs(out: &Path, files: &[PathBuf]) {
                 Ok((gen, cap)) => {
                     writeln!(capf, "panic 0").unwrap();
                     writeln!(capf, "genlen {}", gen.len()).unwrap();
+                    if let Ok(k) = std::env::var("VERIF_REPEAT") {
+                        // determinism: generate again in fresh threads (fresh hash seeds per map)
+                        let k: usize = k.parse().unwrap_or(4);
+                        let src_text = src.clone();
+                        let mut differing = 0;
+                        let handles: Vec<_> = (0..k)
+                            .map(|_| {
+                                let s = src_text.clone();
+                                std::thread::spawn(move || {
+                                    let ts: proc_macro2::TokenStream = s.parse().unwrap();
+                                    let _ = logos_codegen::verif::take();
+                                    let out = catch_unwind(AssertUnwindSafe(|| logos_codegen::generate(ts).to_string()));
+                                    (out.ok(), logos_codegen::verif::take())
+                                })
+                            })
+                            .collect();
+                        let first_cap = cap.clone();
+                        for h in handles {
+                            if let Ok((g2, c2)) = h.join() {
+                                if g2.as_deref() != Some(gen.as_str()) || c2 != first_cap {
+                                    differing += 1;
+                                }
+                            }
+                        }
+                        writeln!(capf, "repeat {k} differing {differing}").unwrap();
+                    }
                     if std::env::var("VERIF_WRITE_GEN").is_ok() {
                         std::fs::write(out.join(format!("{id}.gen")), &gen).unwrap();
                     }
